@@ -480,6 +480,21 @@ def main():
                                   "replay with bin/check C19 --replay <this file>" % cap}, found_input=True)
     chk.cov["cwd_long_erange_observations"] = len(defects.cwd_long)
 
+    # supplement: the title getter racing with the setter on another thread (monitor-only stress)
+    if not chk.replay:
+        try:
+            race = vf.cc_harness(chk.scratch, "c19_title_race", ["c19_title_race.c"], lib=lib)
+            r = vf.sh([race, str(2000000 if thorough else 400000)] + ["P" * 100] * 4, timeout=300)
+            out = r.stdout.strip().split("\n")[-1] if r.stdout.strip() else "no output (exit %d)" % r.returncode
+            chk.cov["title_race"] = out
+            chk.count("title_race", out)
+            if not (out.startswith("ok") or out.startswith("SKIP")):
+                chk.violation("uv_get_process_title racing with uv_set_process_title: " + out,
+                              {"kind": "monitor", "obligation": "title race", "case": "c19_title_race", "impl": out},
+                              found_input=True)
+        except vf.BuildError as e:
+            chk.violation("title race harness does not build", {"kind": "build", "log": str(e)}, found_input=False)
+
     chk.finish(
         level="proof",
         rule="every getter is called on the real library with the buffer ending at a PROT_NONE page, for every "
